@@ -143,6 +143,7 @@ func (p *proc) exchange(m Msg, id int) (rep reply, died bool, herr error) {
 				continue
 			}
 			rep.result = v["result"]
+			rep.id = fmt.Sprint(v["id"])
 			return false, nil
 		}
 		return false, fmt.Errorf("8 frames without a response")
@@ -150,6 +151,9 @@ func (p *proc) exchange(m Msg, id int) (rep reply, died bool, herr error) {
 	died, herr = readUntilResponse()
 	if herr != nil || died {
 		return rep, died, herr
+	}
+	if !m.isNotification() && rep.id != fmt.Sprint(id) {
+		rep.outErr = fmt.Sprintf("response carries id %s, the request had id %d", rep.id, id)
 	}
 	if m.isUpdate() && len(rep.notifs) == 0 {
 		// No diagnostics yet. The server handles messages one at a time, so once it has
@@ -279,6 +283,11 @@ func executeSubproc(c Case, keepTrace bool, bin string) Result {
 		}
 		rep.crashed = died
 		tr.Add("msg %d %s %s (%d,%d) -> died=%v result=%s notifs=%s", i+1, m.Kind, m.URI, m.Line, m.Char, died, core.Truncate(answerCanon(m.Kind, rep.result), 300), core.Truncate(notifCanon(rep.notifs), 300))
+		if v := checkReplySubID(rep); v != nil {
+			v.Detail = fmt.Sprintf("[real binary] message %d of %d: %s", i+1, len(c.Msgs), v.Detail)
+			res.Violation = v
+			return res
+		}
 		if v := checkReplySub(bin, m, rep, latest, shown, fd, updates, &res); v != nil || res.HarnessErr != "" {
 			if v != nil {
 				v.Detail = fmt.Sprintf("[real binary] message %d of %d: %s", i+1, len(c.Msgs), v.Detail)
@@ -302,6 +311,13 @@ func executeSubproc(c Case, keepTrace bool, bin string) Result {
 }
 
 // checkReplySub mirrors checkReply with fresh *processes* as the reference.
+func checkReplySubID(rep reply) *core.Violation {
+	if rep.outErr != "" {
+		return viol("freshness", "response-for-another-request", rep.outErr)
+	}
+	return nil
+}
+
 func checkReplySub(bin string, m Msg, rep reply, latest map[string]string, shown map[string]string, fd func(string, string) (string, bool), updates map[string]int, res *Result) *core.Violation {
 	switch m.Kind {
 	case "open", "change":
